@@ -379,7 +379,10 @@ def step (st : St) (toks : List String) : St × String :=
     | some e => (st, f e.nameAttr ++ " ## " ++ f (some n))
     | none => (st, "err KeyError ## err KeyError")
   | ["obs", n] => (st, obs st n)
-  | ["recheck"] => (st, "stable")
+  -- model: every result the model hands out is a value (`stable`); the specification (C12) does not say
+  -- whether a returned container may alias index state, so its answer is undetermined (`?`): a change
+  -- here is correspondence drift (a provenance change), not a failing input of the property
+  | ["recheck"] => (st, "stable ## ?")
   | ["clobber"] => (st, "ok")
   | cmd :: rest =>
     match splitAll ";" rest with
